@@ -14,7 +14,7 @@ CONSTANT Small     \* TRUE: the reduced instance of the quick tier
 VARIABLE st
 
 MC_Chains == {"ethereum", "avalanche"}
-MC_Accts == {"alice", "bob", "carol", "its", "gs", "app", "trap"}
+MC_Accts == {"alice", "bob", "carol", "its", "gs", "app", "trap", "errapp"}
 MC_Ids == {"iA1", "cS", "r1", "r2", "r3", "r9"}
 MC_IdOf == [alice |-> [s1 |-> "iA1"]]
 MC_IdCOf == [sac |-> "cS"]
@@ -33,6 +33,7 @@ W(n) == A!Word(n)
 RawPayloads ==
     [p_tx   |-> Tx("iA1", "bob", 1, "none"),      p_tx2  |-> Tx("iA1", "bob", 2, "none"),
      p_txc  |-> Tx("cS", "bob", 1, "none"),       p_txd  |-> Tx("iA1", "app", 1, "d1"),
+     p_txe  |-> Tx("iA1", "errapp", 1, "d1"),     \* a receiver that fails with a contract error instead of trapping
      p_txt  |-> Tx("iA1", "trap", 1, "d1"),       p_txu  |-> Tx("iA1", "bob", 1, "d1"),
      p_dp   |-> Dp("r1", "good", "none"),         p_dpm  |-> Dp("r2", "good", "carol"),
      p_send |-> [Tx("iA1", "bob", 1, "none") EXCEPT !.outer = "send"],
